@@ -1,5 +1,6 @@
 import OptRs.Driver.Atoms
 import OptRs.Driver.Terms
+import OptRs.Driver.Topology
 open OptRs.Driver
 
 partial def loop (h : IO.FS.Stream) (out : IO.FS.Stream) (f : String → String) : IO Unit := do
@@ -15,5 +16,7 @@ def main (args : List String) : IO UInt32 := do
   match args with
   | ["atoms"] => loop stdin stdout atomsLine; return 0
   | ["terms"] => loop stdin stdout termsLine; return 0
+  | ["topology"] => loop stdin stdout topologyLine; return 0
+  | ["matrix"] => loop stdin stdout matrixLine; return 0
   | ["atoms-oracle"] => loop stdin stdout AtomsOracle.check; return 0
   | _ => IO.eprintln "usage: optrs-model <stream>"; return 2
